@@ -29,7 +29,8 @@ def record_repo_tests():
         raise MachineryError('recording the repository tests failed: %s' %
                              p.stdout.decode()[-800:])
     with open(out) as f:
-        return json.load(f), p.returncode
+        d = json.load(f)
+    return d['traces'], d['broken']
 
 
 def record_generated(n, rnd):
@@ -70,14 +71,22 @@ def record_generated(n, rnd):
             dumps(obj, **kw)
     finally:
         t.uninstall()
+    if t.broken:
+        return None
     return t.drain()
 
 
 def validate(V, tier):
     rnd = random.Random(SEED)
-    traces, rc = record_repo_tests()
+    traces, broken = record_repo_tests()
     n_repo = len(traces)
-    traces += record_generated(300 if tier == 'quick' else 5000, rnd)
+    gen = record_generated(300 if tier == 'quick' else 5000, rnd)
+    if broken or gen is None:
+        V.notes['trace_validation'] = (
+            'skipped: the private emitter state is not observable (%s); the '
+            'verdict rests on the public-API replay' % (broken or 'renamed'))
+        return
+    traces += gen
     if not traces:
         raise MachineryError('no emit_json traces recorded')
     path = os.path.join(BUILD, 'json-traces.json')
